@@ -104,17 +104,23 @@ def fam_locality(rng, links, per_link, na, thorough=False):
         for rep in range(per_link):
             hs = 1 if (rep % 4 == 3 and l != 4) else 0
             keep = rng.choice([1, 1, 5, 3])            # which packets keep their granule position (page layouts)
-            d = rng.randrange(1, n - 2); kind = rng.choice(['drop', 'dup', 'trunc', 'flip', 'flips', 'hdr', 'restart', 'zero', 'drop2', 'trk'])
+            d = rng.randrange(1, n - 2); kind = rng.choice(['drop', 'dup', 'trunc', 'flip', 'flips', 'hdr', 'restart', 'zero', 'drop2', 'trk', 'modeflip', 'retry'])
+            if rep == 3: kind = 'retry'; d = rng.randrange(2, n - 2)
+            if rep < 3: kind = 'modeflip'; d = rng.randrange(1, max(2, n // 2))          # every link sees it: an early packet that claims the other block size and still decodes
             ls = opening(l, hs)
             def syn(k, extra=''):
                 g = '' if (keep == 1 or (k + 1) % keep == 0 or k == n - 1) else ' gp=-1'
                 return [f'psyn 0 {k}{g}{extra}', 'pout 0', 'pread 0 -1']
             for k in range(0, d): ls += syn(k)
+            if kind == 'retry' and d >= 2:
+                # block d is offered while the samples of d-1 are still unread: refused, and the refusal must leave nothing behind - drained and offered again it decodes as ever
+                ls = ls[:-1] + [f'psyn 0 {d}', 'pread 0 -1'] + syn(d)
             if kind == 'drop': pass
             elif kind == 'drop2': d += 1
             elif kind == 'dup': ls += syn(d) + syn(d)
             elif kind == 'trunc': ls += syn(d, f' m=trunc:{rng.choice([0, 1, 2, 5, 20, 60])}')
             elif kind == 'flip': ls += syn(d, f' m=flip:{rng.randrange(8, 4000)}')
+            elif kind == 'modeflip': ls += syn(d, f' m=flip:{rng.choice([1, 1, 1, 2, 3, 5])}')          # the mode field and the window flags behind it
             elif kind == 'flips': ls += syn(d, f' m=flips:{rng.randrange(1000)}:{rng.choice([2, 5, 30])}')
             elif kind == 'zero': ls += syn(d, f' m=zero:{rng.choice([1, 3, 10])}')
             elif kind == 'hdr': ls += syn(d, ' m=hdr')
